@@ -2,6 +2,7 @@ package c17
 
 import (
 	"bytes"
+	"encoding/json"
 	"fmt"
 	"math/big"
 	"reflect"
@@ -28,6 +29,7 @@ var (
 	itemT    = reflect.TypeOf((*stackitem.Item)(nil)).Elem()
 	mptNodeT = reflect.TypeOf((*mpt.Node)(nil)).Elem()
 	wildStrT = reflect.TypeOf(manifest.WildStrings{})
+	rawMsgT  = reflect.TypeOf(json.RawMessage{})
 )
 
 // derived cache fields, by "<pkg-qualified type>.<field>".
@@ -100,6 +102,18 @@ func deq(path string, a, b reflect.Value, depth int) string {
 		if (x.Value == nil) != (y.Value == nil) {
 			return fmt.Sprintf("%s: wildcard %v vs %v", path, x.Value == nil, y.Value == nil)
 		}
+	}
+	if t == rawMsgT {
+		// raw JSON is compared up to insignificant white space
+		x, y := clean(a).Bytes(), clean(b).Bytes()
+		var cx, cy bytes.Buffer
+		if json.Compact(&cx, x) == nil && json.Compact(&cy, y) == nil {
+			x, y = cx.Bytes(), cy.Bytes()
+		}
+		if !bytes.Equal(x, y) {
+			return fmt.Sprintf("%s: raw JSON %q vs %q", path, trunc(string(x)), trunc(string(y)))
+		}
+		return ""
 	}
 	switch a.Kind() {
 	case reflect.Bool:
@@ -235,7 +249,7 @@ func truncB(b []byte) []byte {
 
 // itemDiff compares two stack items by type, value and structure.
 func itemDiff(path string, a, b stackitem.Item, depth int) string {
-	if depth > 2100 {
+	if depth > 1000000 {
 		return path + ": item too deep"
 	}
 	if a == nil || b == nil {
